@@ -729,7 +729,9 @@ CB_VOCAB = [
     V(r"m_edges\.push_back\(\s*(\{[^;]*\})\s*\)", r"FSL_EDGES_PUSH(((struct fsl_edge)\1))"),
     V(r"=\s*edge\s*\{", "= (struct fsl_edge){"),
     V(r"\bm_edges\[(\w+)\]", r"m_edges[FSL_IDX1(\1, m_edges_n)]"),
-    V(r"m_edge_positions\.resize\(([^()]+)\)", r"fsl_vsz_resize_b(m_edge_positions, &m_edge_positions_n, m_edge_positions_cap, \1, 0)"),
+    # vector::resize(n, v): only NEWLY appended elements get v, existing ones keep their value (that is what the model states)
+    V(r"m_edge_positions\.resize\(([^(),]+),\s*([^()]+)\)", r"fsl_vsz_resize_b(m_edge_positions, &m_edge_positions_n, m_edge_positions_cap, \1, \2)"),
+    V(r"m_edge_positions\.resize\(([^(),]+)\)", r"fsl_vsz_resize_b(m_edge_positions, &m_edge_positions_n, m_edge_positions_cap, \1, 0)"),
     V(r"std::fill\(m_edge_positions\.begin\(\),\s*m_edge_positions\.end\(\),\s*([^()]+)\)", r"fsl_vsz_fill_b(m_edge_positions, m_edge_positions_n, \1)"),
     V(r"m_edge_positions_tmp\.reserve\(([^;]*)\);", r"FSL_RESERVE(\1);"),
     V(r"m_edge_positions_tmp\.clear\(\)", "m_edge_positions_tmp_n = 0"),
@@ -945,7 +947,7 @@ def cb_groups(nb, tier="quick"):
     for l in ("pos", "edge", "lowest"):
         gs.append(Group(name="basin.connect.visit.%s" % l, units=base + [make_cb_switch(nb, "frame") if l == "edge" else sw, make_cb_visit(nb, l)], extra_c=[MODEL_H], defines=defs,
                         harness=_hcb("cb_visit", "cb_visit(%s, nondet_size_t(), nondet_double(), nn)" % CB_ARGS, nb), entry="h_cb_visit",
-                        enforce="cb_visit", replace=["cb_switch"], backend="cvc5", timeout=3600, min_obligations=50, tier="thorough",
+                        enforce="cb_visit", replace=["cb_switch"], backend="cvc5", timeout=3600, min_obligations=50, tier=("quick" if l == "lowest" else "thorough"),
                         clause="connect_basins, one adjacent node pair, lemma `%s`: %s" % (l, what[l])))
     for l in ("pos", "edge"):
         gs.append(Group(name="basin.connect.node.%s" % l, units=base + [make_cb_visit(nb, l), make_cb_node(nb, l)], extra_c=[MODEL_H], defines=defs,
@@ -1025,7 +1027,9 @@ cb_make_edge.pre = cb_pre(2)   # ghost declarations, neighbour contract and pred
 CB_GROUPS = cb_groups(2)
 
 GROUPS = {"C15": [G_UF_FIND, G_UF_MERGE] + G_UF_LINK + [G_UF_RESIZE, G_UF_CLEAR, G_UF_PUSH, G_KR_CMP, G_KR_STEP, G_KR_TREE] + G_KR_LOOP + CB_ROOT_GROUPS + CB_GROUPS,
-          "C01": [G_SB_STEP, G_SB_LOOP]}
+          # the root of the basin tree and the per-call resets decide whether every depression is re-routed (C01) and filled to its spill (C02)
+          "C01": [G_SB_STEP, G_SB_LOOP] + CB_ROOT_GROUPS + [g for g in CB_GROUPS if g.tier == "quick"],
+          "C02": CB_ROOT_GROUPS + [g for g in CB_GROUPS if g.tier == "quick"]}
 # keep-alive: goto-instrument aborts on --replace-call-with-contract of a function that is never called.  So that a change which
 # REMOVES a call (e.g. drops a reset) is judged by the contract instead of breaking the tool chain, every harness ends with an
 # unreachable call of each callee named in `replace`.
